@@ -691,7 +691,9 @@ fire("c14-revert-product-remainder", ["C14"], CF,
      "                self.join_rec(\" * \", expr.children, PREC_PRODUCT),",
      "T/c-grammar/Product.children[1]<-Remainder")
 fire("c14-revert-square-parens", ["C14"], CF,
+     "            elif is_zero(expr.exponent - 2):\n"
      "                if enclosing_prec >= PREC_PRODUCT:\n",
+     "            elif is_zero(expr.exponent - 2):\n"
      "                if enclosing_prec > PREC_PRODUCT:\n",
      "T/c-grammar/Power-exp-2")
 fire("c14-revert-comparison-bitwise", ["C14"], CF,
@@ -2901,8 +2903,8 @@ fire("c19-euclid-returns-penultimate-remainder", ["C19"], "pymbolic/algorithm.py
      "    return q*q, Q[0]*q, Q[1]*q",
      "P/extended_euclidean/greatest")
 fire("c19-lcm-multiplies-by-gcd", ["C19"], "pymbolic/algorithm.py",
-     "    return abs(q*r)//gcd(q, r)",
-     "    return abs(q*r)*gcd(q, r)",
+     "    return abs(q*r)//g\n",
+     "    return abs(q*r)*g\n",
      "P/lcm/consistent-with-gcd")
 
 # ---- C18 (geometric algebra, abstract interpretation) ---------------------
@@ -2991,3 +2993,49 @@ silent("c05-generated-helpers-at-module-level", ["C05"], OPF,
      "            expr_assign = lambda name, value: NamedExpr(  # noqa: E731\n"
      "                        target=Name(id=name, ctx=Store()),\n"
      "                        value=value)\n")
+
+# -- compiled polynomials as operands / over a power base (C13; two genuine
+# defects of the pinned tree, fixed in 85bbd88 and 94d34a5)
+fire("c13-one-term-polynomial-bare-as-operand", ["C13"], "pymbolic/compiler.py",
+     "        if enclosing_prec > PREC_SUM:\n            return f\"({result})\"\n",
+     "        if enclosing_prec > PREC_SUM and len(expr.data) > 1:\n"
+     "            return f\"({result})\"\n",
+     "P/CompileMapper.map_polynomial/text-value")
+fire("c13-polynomial-power-base-bare", ["C13"], "pymbolic/compiler.py",
+     "        sbase = self(expr.base, PREC_POWER + 1)\n",
+     "        sbase = self(expr.base, PREC_POWER)\n",
+     "P/CompileMapper.map_polynomial/text-value/power-base")
+
+# -- u**1 next to * / % (C14; genuine defect of the pinned tree, fixed in 263d996)
+fire("c14-power-one-bare-next-to-product-level", ["C14"],
+     "pymbolic/mapper/c_code.py",
+     "                    return self.rec(expr.base, PREC_POWER)\n",
+     "                    return self.rec(expr.base, enclosing_prec)\n",
+     "T/c-grammar/Power-exp-1-of-remainder-in-product")
+
+# -- lcm(0, 0), Rational arithmetic (C19; genuine defects of the pinned tree,
+# fixed in df987c6, a71da4d, 864c29d)
+fire("c19-lcm-zero-pair-divides-by-gcd", ["C19"], "pymbolic/algorithm.py",
+     "    g = gcd(q, r)\n    if not g:\n"
+     "        # q == r == 0: the only common multiple is 0\n"
+     "        return abs(q*r)\n    return abs(q*r)//g\n",
+     "    return abs(q*r)//gcd(q, r)\n",
+     "P/lcm/zero-pair")
+fire("c19-rational-pow-swapped", ["C19"], "pymbolic/rational.py",
+     "        return Rational(self.Numerator**other, self.Denominator**other)",
+     "        return Rational(self.Denominator**other, self.Numerator**other)",
+     "P/Rational.__pow__/componentwise")
+fire("c19-rational-mul-true-division", ["C19"], "pymbolic/rational.py",
+     "            new_num = (self.Numerator//gcd_1) * (newother.Numerator//gcd_2)",
+     "            new_num = (self.Numerator/gcd_1) * (newother.Numerator/gcd_2)",
+     "K/Rational.__mul__/no-true-division")
+fire("c19-ring-lcm-true-division", ["C19"], "pymbolic/traits.py",
+     "        return a * b // cls.gcd(a, b)",
+     "        return a * b / cls.gcd(a, b)",
+     "K/EuclideanRingTraits.lcm/no-true-division")
+silent("c19-lcm-zero-pair-tested-on-operands", ["C19"], "pymbolic/algorithm.py",
+     "    g = gcd(q, r)\n    if not g:\n"
+     "        # q == r == 0: the only common multiple is 0\n"
+     "        return abs(q*r)\n    return abs(q*r)//g\n",
+     "    if not q and not r:\n        return 0\n"
+     "    return abs(q*r)//gcd(q, r)\n")
